@@ -1698,6 +1698,141 @@ theorem C11_heap_filedata_holder_setter_confined (s : Store) (obj : Addr) (u : U
     exact ⟨frameOutside_of_steps (.write obj _ (.refl s) (by simp)), c, hc,
       List.getElem?_set_self (List.getElem?_eq_some_iff.mp hc).1⟩
 
+/-! ### closure preservation: the hypotheses `Closed s`, `a < s.length` of the theorems above hold again after a call,
+so calls can be CHAINED by proof (side conditions: the address arguments are cells of the store) -/
+
+/-- after the call the store is closed again, has not shrunk, and the result is a cell of it -/
+def KeepsClosed (m : H Addr) : Prop :=
+  ∀ s, Closed s → ∀ r s', m.run s = some (r, s') → Closed s' ∧ s.length ≤ s'.length ∧ r < s'.length
+
+private theorem ScalSteps.closed {R : List Addr} {s s' : Store} (h : ScalSteps R s s') (hc : Closed s) :
+    Closed s' ∧ s'.length = s.length := by
+  induction h with
+  | refl => exact ⟨hc, rfl⟩
+  | snoc a c f _ _ hcell ih => exact ⟨closed_set_same_refs ih.1 hcell rfl, by rw [List.length_set]; exact ih.2⟩
+
+/-- setter calls (any sequence of telecommand / telemetry setters) keep a closed store closed and its size -/
+theorem C02_heap_setters_keep_closed (s : Store) (hc : Closed s) (p : Addr) :
+    (∀ ops : List TcOp, Closed (runOps (tcSet p) ops s) ∧ (runOps (tcSet p) ops s).length = s.length) ∧
+    (∀ ops : List TmOp, Closed (runOps (tmSet p) ops s) ∧ (runOps (tmSet p) ops s).length = s.length) := by
+  have gen : ∀ {α : Type} (f : α → H Unit), (∀ s op u s', (f op).run s = some (u, s') → ScalSteps (reachN 2 s p) s s') →
+      ∀ (ops : List α) (s0 : Store), Closed s0 → Closed (runOps f ops s0) ∧ (runOps f ops s0).length = s0.length := by
+    intro α f hf ops
+    induction ops with
+    | nil => intro s0 h0; exact ⟨h0, rfl⟩
+    | cons o ops ih =>
+      intro s0 h0
+      simp only [runOps, List.foldl_cons]
+      cases hrun : (f o).run s0 with
+      | none => exact ih s0 h0
+      | some q =>
+        obtain ⟨u, s1⟩ := q
+        obtain ⟨c1, l1⟩ := (hf s0 o u s1 hrun).closed h0
+        obtain ⟨c2, l2⟩ := ih s1 c1
+        exact ⟨c2, by rw [← l1]; exact l2⟩
+  exact ⟨fun ops => gen (tcSet p) (fun s op u s' h => C02_heap_tc_setter_confined 0 s p op u s' h) ops s hc,
+         fun ops => gen (tmSet p) (fun s op u s' h => C02_heap_tm_setter_confined 0 s p op u s' h) ops s hc⟩
+
+/-- the builders without address arguments, `RequestId.from_sp_header` / `from_pus_tc`, `to_space_packet()` (TC and TM) and
+    the common body of the eight PDU constructors (caller objects must be cells of the store) keep closed stores closed -/
+theorem C11_heap_ops_keep_closed :
+    (∀ a b c d e f g, KeepsClosed (newPusTc a b c d e f g)) ∧ (∀ a b c d e f, KeepsClosed (newPusTm a b c d e f)) ∧
+    (∀ a b c d e f g, KeepsClosed (newSpHeader a b c d e f g)) ∧
+    KeepsClosed finishedSuccessParams ∧ KeepsClosed finishedEmptyParams ∧ KeepsClosed fileDataEmptyParams ∧
+    KeepsClosed pduConfigDefault ∧ (∀ w v, KeepsClosed (newByteField w v)) ∧
+    (∀ hdr, KeepsClosed (reqIdFromSpHeader hdr)) ∧ (∀ tc, KeepsClosed (reqIdFromPusTc tc)) ∧
+    (∀ p, KeepsClosed (tcToSpacePacket p)) ∧ (∀ p, KeepsClosed (tmToSpacePacket p)) ∧
+    (∀ k conf objs scal af fl dl s, Closed s → (∀ o, some o ∈ objs → o < s.length) →
+      ∀ r s', (newPdu k conf objs scal af fl dl).run s = some (r, s') → Closed s' ∧ s.length ≤ s'.length ∧ r < s'.length) := by
+  have noarg : ∀ (m : H Addr), (∀ s r s', m.run s = some (r, s') →
+      ∃ t, s' = s ++ t ∧ (∀ c ∈ t, ∀ x ∈ c.kids, x < s.length + t.length) ∧ r < s.length + t.length) → KeepsClosed m := by
+    intro m hm s hc r s' h
+    obtain ⟨t, rfl, ht, hr⟩ := hm s r s' h
+    exact ⟨closed_append hc ht, by simp, by simpa using hr⟩
+  have hreq : ∀ hdr, KeepsClosed (reqIdFromSpHeader hdr) := by
+    intro hdr s hc r s' h
+    obtain ⟨ch, pid, psc, cp, cq, ver, hch, hpid, hpsc, _, hcp, hcq, rfl, rfl⟩ := reqIdFromSpHeader_shape s hdr r s' h
+    have hql : psc < s.length := closed_kid_lt hc hch (kid_of_ref hpsc)
+    rw [List.getElem?_append_left hql] at hcq
+    refine ⟨closed_append hc ?_, by simp, by simp⟩
+    intro c hcm x hx
+    simp only [List.mem_cons, List.not_mem_nil, or_false] at hcm
+    rcases hcm with rfl | rfl | rfl
+    · exact Nat.lt_of_lt_of_le (closed_kid_lt hc hcp hx) (Nat.le_add_right _ _)
+    · exact Nat.lt_of_lt_of_le (closed_kid_lt hc hcq hx) (Nat.le_add_right _ _)
+    · simp [Cell.kids] at hx; rcases hx with rfl | rfl <;> simp
+  have hsp : ∀ secLen p, KeepsClosed (do
+        let hdr ← ref p 0
+        let n ← scalAt p 0
+        setScal p 1 1
+        let hdr' ← deepCopyHeader hdr
+        new ⟨.spacePacket, [some hdr'], [secLen, n + 2]⟩ : H Addr) := by
+    intro secLen p s hc r s' h
+    obtain ⟨cp, hdr, m, ch, pid, psc, c1, c2, hcp, hr, _, hch, hpid, hpsc, hc1, hc2, rfl, rfl⟩ := toSpacePacket_shape secLen p r s s' h
+    have hc1s := closed_set_same_refs hc hcp (c' := { cp with scal := cp.scal.set 1 1 }) rfl
+    have hlen : (s.set p { cp with scal := cp.scal.set 1 1 }).length = s.length := List.length_set
+    have hql : psc < (s.set p { cp with scal := cp.scal.set 1 1 }).length := closed_kid_lt hc1s hch (kid_of_ref hpsc)
+    rw [List.getElem?_append_left hql] at hc2
+    refine ⟨closed_append hc1s ?_, by simp [hlen], by simp [hlen]⟩
+    intro c hcm x hx
+    rw [hlen]
+    simp only [List.mem_cons, List.not_mem_nil, or_false] at hcm
+    rcases hcm with rfl | rfl | rfl | rfl
+    · exact Nat.lt_of_lt_of_le (by rw [← hlen]; exact closed_kid_lt hc1s hc1 hx) (Nat.le_add_right _ _)
+    · exact Nat.lt_of_lt_of_le (by rw [← hlen]; exact closed_kid_lt hc1s hc2 hx) (Nat.le_add_right _ _)
+    · simp [Cell.kids] at hx; rcases hx with rfl | rfl <;> simp
+    · simp [Cell.kids] at hx; subst hx; simp
+  have hnoarg : ∀ (m : H Addr), (∀ s r s', m.run s = some (r, s') →
+      ∃ t, s' = s ++ t ∧ (∀ c ∈ t, ∀ x ∈ c.kids, x < s.length + t.length) ∧ r < s.length + t.length) → KeepsClosed m := noarg
+  refine ⟨?_, ?_, ?_, ?_, ?_, ?_, ?_, ?_, hreq, ?_, fun p => hsp 5 p, fun p => hsp 7 p, ?_⟩
+  case refine_9 =>
+    intro tc s hc r s' h
+    unfold reqIdFromPusTc at h
+    obtain ⟨hdr, s1, h1, h2⟩ := (run_bind_some _ _ _ _ _).mp h
+    obtain ⟨_, e⟩ := (ref_run _ _ _ _ _).mp h1
+    subst s1
+    exact hreq hdr s hc r s' h2
+  case refine_10 =>
+    intro k conf objs scal af fl dl s hc hobjs r s' h
+    have hcc : ∃ cc, s[conf]? = some cc := by
+      unfold newPdu copyConfWithDir at h
+      obtain ⟨_, _, h1, _⟩ := (run_bind_some _ _ _ _ _).mp h
+      obtain ⟨c0, _, h3, _⟩ := (run_bind_some _ _ _ _ _).mp h1
+      exact ⟨c0, ((cellAt_run _ _ _ _).mp h3).1⟩
+    obtain ⟨cc, hcc⟩ := hcc
+    have hkid : ∀ x ∈ cc.kids, x < s.length := fun x hx => closed_kid_lt hc hcc hx
+    rcases newPdu_shape k conf objs scal af fl dl s cc hcc r s' h with ⟨_, rfl, rfl⟩ | ⟨_, rfl, rfl⟩
+    · refine ⟨closed_append hc ?_, by simp, by simp⟩
+      intro c hcm x hx
+      simp only [List.mem_cons, List.not_mem_nil, or_false] at hcm
+      rcases hcm with rfl | rfl | rfl
+      · exact Nat.lt_of_lt_of_le (hkid x (by simpa [Cell.kids] using hx)) (Nat.le_add_right _ _)
+      · simp [Cell.kids] at hx; subst hx; simp
+      · simp [Cell.kids] at hx
+        rcases hx with rfl | hx
+        · simp
+        · exact Nat.lt_of_lt_of_le (hobjs x hx) (Nat.le_add_right _ _)
+    · refine ⟨closed_append hc ?_, by simp, by simp⟩
+      intro c hcm x hx
+      simp only [List.mem_cons, List.not_mem_nil, or_false] at hcm
+      rcases hcm with rfl | rfl | rfl | rfl
+      · exact Nat.lt_of_lt_of_le (hkid x (by simpa [Cell.kids] using hx)) (Nat.le_add_right _ _)
+      · simp [Cell.kids] at hx; subst hx; simp
+      · simp [Cell.kids] at hx; subst hx; simp
+      · simp [Cell.kids] at hx
+        rcases hx with rfl | hx
+        · simp
+        · exact Nat.lt_of_lt_of_le (hobjs x hx) (Nat.le_add_right _ _)
+  all_goals
+    intros
+    apply hnoarg
+    intro s r s' h
+    simp [newPusTc, newTcSec, newPusTm, newSpHeader, newPacketId, newPsc, finishedSuccessParams, finishedEmptyParams,
+      fileDataEmptyParams, newFinishedParams, newFileDataParams, pduConfigDefault, newByteField, newPduConfig,
+      StateT.run_bind, new_run_eq] at h
+    obtain ⟨rfl, rfl⟩ := h
+    refine ⟨_, rfl, ?_, ?_⟩ <;> first | (simp [Cell.kids]; done) | (simp [Cell.kids]; omega)
+
 /-- the call does not raise and its result and the store afterwards satisfy `P` -/
 def Holds {α : Type} (r : Option (α × Store)) (P : α → Store → Prop) : Prop := ∃ a s', r = some (a, s') ∧ P a s'
 
